@@ -1,15 +1,22 @@
 /-
   C15 — printing a parsed theory / specification / user guide re-parses to the same tree.
-  Status (partial): printers modelled exactly and tied by text equality; the pest parser is not
-  modelled, the round trip is explored on the real parser. Two genuine defects were repaired
-  (`fix:` db0baa0 quantifier over a variable-initial atomic formula, 3af4e16 keyword word
-  boundary). Proved here: the printer facts behind the first fix and the associativity /
-  mandatory-parentheses rules of the mixed level `<->`, `->`, `<-`.
-  A third defect (text beginning with a comparison after `<-`: `p <- X$i > 3` was read as the
-  comparison `p < -X$i > 3`) was repaired later (`fix:` right operand of `<-` parenthesised when it
-  begins with a comparison).
+  Status: the printers (Model/Print) and the parser (Model/FolParse: the PEG of grammar.pest with
+  pest's rules, the tree builders, both Pratt tables of pest.rs) are modelled and tied to the Rust
+  code by exact correspondence (suites `print`, `fol_parse`).
+  Proved here (pair level): `pratt_inverts_formula_parenthesisation` and
+  `pratt_inverts_integer_term_parenthesisation` - pest's Pratt algorithm, run on the pair sequence
+  of a printed formula / integer term (an operand that the printer parenthesises is one primary
+  pair), returns the formula / term, for every nesting: the five connectives with the mandatory
+  parentheses of the mixed level `<->`, `->`, `<-`, left-nested `and`/`or` chains, negation and
+  quantifier prefixes in any operand position; plus the printer facts behind the three repaired
+  defects. Not proved: the character level for the target language (that the printed tokens are
+  lexed back: sort suffixes, keyword boundaries, variable lists); it is covered by the
+  `fol_parse` correspondence and the round-trip exploration on the real parser.
+  Three genuine defects were repaired (`fix:` db0baa0 quantifier over a variable-initial atomic
+  formula, 3af4e16 keyword word boundary, d0885ee comparison after `<-`).
 -/
 import AnthemModel.Model.Print
+import AnthemModel.Proofs.FolPrattInv
 namespace Anthem.C15
 
 /-- text of a quantification prefix -/
@@ -61,5 +68,25 @@ example : Formula.print (.bin .rimp (.atomic (.cmp (.int (.num 1)) [⟨.lt, .int
 example : Formula.print (.bin .rimp (.atomic (.atom ⟨"p", []⟩))
       (.bin .and (.atomic (.cmp (.int (.var "X")) [⟨.gt, .int (.num 3)⟩])) (.atomic (.atom ⟨"q", []⟩)))) =
     "p <- (X$i > 3 and q)" := by decide
+
+/-- **Pratt inversion for formulas** (pair level): for every formula, pest's Pratt parser with
+    the table of pest.rs (`<->`,`->` right-, `<-` left-associative at the weakest level, then `or`,
+    `and`, prefix `not`/quantification strongest) returns the formula from the pair sequence of its
+    printed text. -/
+theorem pratt_inverts_formula_parenthesisation (f : Formula) : Fol.fpratt (Fol.fflat f) = some f :=
+  Fol.fpratt_flat_eq f
+
+/-- **Pratt inversion for integer terms** (pair level). -/
+theorem pratt_inverts_integer_term_parenthesisation (t : ITerm) : Fol.ipratt (Fol.iflat t) = some t :=
+  Fol.ipratt_flat_eq t
+
+/-- the pair sequence mirrors the printer: an operand is a single primary exactly when the printer
+    parenthesises it (same conditions, read off `Formula.print`) -/
+theorem fflat_paren_conditions (c : Conn) (l r : Formula) :
+    Fol.parenLeft c l r = (l.mandatory || decide ((Formula.bin c l r).prec < l.prec) ||
+      (decide ((Formula.bin c l r).prec = l.prec) && l.rightAssoc)) ∧
+    Fol.parenRight c l r = ((decide (c = .rimp) && r.beginsWithComparison) || r.mandatory ||
+      decide ((Formula.bin c l r).prec < r.prec) ||
+      (decide ((Formula.bin c l r).prec = r.prec) && !(Formula.bin c l r).rightAssoc)) := ⟨rfl, rfl⟩
 
 end Anthem.C15
